@@ -1240,7 +1240,7 @@ func ruleC13Ctl(c *Ctx) {
 		c.Guard(rule, fn, nilErrorReturns(fn), "return nil", nil,
 			called("(*sync.WaitGroup).Wait"),
 			atom("no store failed", "+len(var(complit).Errors) ==0"),
-			atom("every backend stored it", "+len($0.backends) -var(success) ==0"))
+			atom("every backend stored it", "+len($0.backends) -var(int) ==0"))
 	}
 	c.Floor(rule, 20)
 }
